@@ -167,10 +167,92 @@ async fn cell(set: Arc<CertSet>, n: usize, order: String, pattern: String, celli
     }
 }
 
+/// Topic A is stalled and its registration queue is full. A client that uses a healthy topic B
+/// then also tries to join A over the same connection (those registrations cannot be answered).
+/// Its traffic on B must keep flowing - for longer than any internal time-out of the server.
+async fn parked_on_victim_cell(set: Arc<CertSet>, extra: usize, watch_s: u64, cellid: u64) -> Result<String, Fail> {
+    let class = "parked-registration-on-the-same-connection".to_string();
+    let setup = |what: &str, e: String| fail("setup", what, format!("{what}: {e}"));
+    let addr = net::start_server(&set).map_err(|e| setup("server", e.to_string()))?;
+    let a = format!("/c17ns/stall{cellid}");
+    let b = format!("/c17ns/free{cellid}");
+    let ta = TopicName::try_from(a.as_str()).unwrap();
+    let tb = TopicName::try_from(b.as_str()).unwrap();
+    let mut held = Held { _conns: Vec::new(), _streams: Vec::new() };
+    // stall A
+    let stall_conn = RawConn::connect(addr, &set.ca, Some(&set.client)).await.map_err(|e| setup("raw connect", e.to_string()))?;
+    let (sub_stream, first) = stall_conn.register(Frame::RegisterSubscriber(SubscriberPayload { topic: ta.clone(), retention_policy: 0, operations: vec![] })).await.map_err(|e| setup("stalling subscriber", e.to_string()))?;
+    if first != Some(Frame::Ok) {
+        return Err(setup("stalling subscriber", format!("{first:?}")));
+    }
+    held._streams.push(sub_stream);
+    let (mut pub_stream, first) = stall_conn.register(Frame::RegisterPublisher(PublisherPayload { topic: ta.clone(), retention_policy: 0, operations: vec![] })).await.map_err(|e| setup("flooding publisher", e.to_string()))?;
+    if first != Some(Frame::Ok) {
+        return Err(setup("flooding publisher", format!("{first:?}")));
+    }
+    let chunk = Bytes::from(vec![b'x'; 64 * 1024]);
+    let mut stalled = false;
+    for _ in 0..1024 {
+        match tokio::time::timeout(Duration::from_secs(1), pub_stream.send(Frame::Message(MessagePayload { headers: None, message: chunk.clone() }))).await {
+            Ok(Ok(())) => {}
+            Ok(Err(e)) => return Err(setup("flood", e.to_string())),
+            Err(_) => {
+                stalled = true;
+                break;
+            }
+        }
+    }
+    if !stalled {
+        return Err(setup("flood", "the topic never stalled".into()));
+    }
+    held._streams.push(pub_stream);
+    // fill A's registration queue from other connections
+    register_many(addr, &set, &ta, 100, &mut held, false).await.map_err(|e| setup("registrations", e))?;
+    // the victim: healthy topic B on its own connection ...
+    let v = RawConn::connect(addr, &set.ca, Some(&set.client)).await.map_err(|e| setup("victim connect", e.to_string()))?;
+    let (mut vs, f) = v.register(Frame::RegisterSubscriber(SubscriberPayload { topic: tb.clone(), retention_policy: 0, operations: vec![] })).await.map_err(|e| setup("victim subscriber", e.to_string()))?;
+    if f != Some(Frame::Ok) {
+        return Err(setup("victim subscriber", format!("{f:?}")));
+    }
+    let (mut vp, f) = v.register(Frame::RegisterPublisher(PublisherPayload { topic: tb.clone(), retention_policy: 0, operations: vec![] })).await.map_err(|e| setup("victim publisher", e.to_string()))?;
+    if f != Some(Frame::Ok) {
+        return Err(setup("victim publisher", format!("{f:?}")));
+    }
+    // ... which also asks to join the stalled topic: these cannot be answered while A is stalled
+    for _ in 0..extra {
+        let mut s = v.open().await.map_err(|e| setup("open", e.to_string()))?;
+        s.send(Frame::RegisterSubscriber(SubscriberPayload { topic: ta.clone(), retention_policy: 0, operations: vec![] })).await.map_err(|e| setup("send registration", e.to_string()))?;
+        held._streams.push(s);
+    }
+    let t0 = Instant::now();
+    let mut n = 0u32;
+    while t0.elapsed() < Duration::from_secs(watch_s) {
+        n += 1;
+        let id = format!("x{n}");
+        if let Err(e) = vp.send(Frame::Message(MessagePayload { headers: None, message: Bytes::from(id.clone().into_bytes()) })).await {
+            return Err(fail("other-topic-blocked-on-same-connection", &class, format!("exchange {n} on {b}, {:.1} s after {extra} registrations of the same connection were parked behind the stalled topic {a}: cannot publish: {e}", t0.elapsed().as_secs_f32())));
+        }
+        let got = loop {
+            match net::next_frame(&mut vs, Duration::from_secs(10)).await {
+                Ok(Some(Frame::Message(p))) if p.message == id.as_bytes() => break Ok(()),
+                Ok(Some(_)) => continue,
+                Ok(None) => break Err("the subscriber stream ended".to_string()),
+                Err(e) => break Err(e.to_string()),
+            }
+        };
+        if let Err(e) = got {
+            return Err(fail("other-topic-blocked-on-same-connection", &class, format!("exchange {n} on {b}, {:.1} s after {extra} registrations of the same connection were parked behind the stalled topic {a}: {e}", t0.elapsed().as_secs_f32())));
+        }
+        tokio::time::sleep(Duration::from_millis(400)).await;
+    }
+    drop(held);
+    Ok(format!("other-topic-served for {watch_s} s"))
+}
+
 /// Peers of topic A that grant the server no credit at all on their streams (the answer to their
 /// registration can never be written). Everybody else must be unaffected.
-async fn zero_window_cell(set: Arc<CertSet>, n: usize, role: String, cellid: u64) -> Result<String, Fail> {
-    let class = format!("zero-window:{role}");
+async fn zero_window_cell(set: Arc<CertSet>, n: usize, role: String, mismatch: bool, cellid: u64) -> Result<String, Fail> {
+    let class = format!("zero-window:{role}{}", if mismatch { ":kind-mismatch" } else { "" });
     let setup = |what: &str, e: String| fail("setup", what, format!("{what}: {e}"));
     let addr = net::start_server(&set).map_err(|e| setup("server", e.to_string()))?;
     let a = format!("/c17ns/zw{cellid}");
@@ -179,6 +261,18 @@ async fn zero_window_cell(set: Arc<CertSet>, n: usize, role: String, cellid: u64
     round_trip(addr, &set, &format!("/c17ns/sanity{cellid}"), Duration::from_secs(20)).await.map_err(|e| setup("sanity round trip", e))?;
     let mut held = Vec::new();
     let mut conns = Vec::new();
+    if mismatch {
+        // the topic already exists with the other messaging pattern: the peers below are to be
+        // refused, and that refusal can never be written either
+        let c = RawConn::connect(addr, &set.ca, Some(&set.client)).await.map_err(|e| setup("connect", e.to_string()))?;
+        let first = if role == "subscriber" || role == "publisher" { Frame::RegisterReplier(ReplierPayload { topic: ta.clone() }) } else { Frame::RegisterSubscriber(SubscriberPayload { topic: ta.clone(), retention_policy: 0, operations: vec![] }) };
+        let (s, f) = c.register(first).await.map_err(|e| setup("establish the other pattern", e.to_string()))?;
+        if f != Some(Frame::Ok) {
+            return Err(setup("establish the other pattern", format!("{f:?}")));
+        }
+        held.push(s);
+        conns.push(c);
+    }
     for _ in 0..n {
         let c = RawConn::connect_with_window(addr, &set.ca, Some(&set.client), 0).await.map_err(|e| setup("zero-window connect", e.to_string()))?;
         let mut s = c.open().await.map_err(|e| setup("open", e.to_string()))?;
@@ -204,16 +298,16 @@ async fn zero_window_cell(set: Arc<CertSet>, n: usize, role: String, cellid: u64
 }
 
 fn cells(tier: &str) -> Vec<Value> {
-    let ns: &[usize] = if tier == "thorough" { &[0, 1, 50, 99, 100, 101, 102, 103, 150, 250] } else { &[0, 99, 100, 101, 102, 150] };
+    let ns: &[usize] = if tier == "thorough" { &[0, 1, 50, 99, 100, 101, 102, 103, 150, 163, 164, 165, 250, 400] } else { &[0, 99, 100, 101, 102, 150, 200] };
     let mut v = Vec::new();
     let mut id = 0;
     for pattern in ["pubsub", "reqrep"] {
         for order in ["stall-first", "registrations-first"] {
             for &n in ns {
-                if tier != "thorough" && order == "registrations-first" && n != 101 && n != 150 {
+                if tier != "thorough" && order == "registrations-first" && n != 101 && n != 200 {
                     continue;
                 }
-                if tier != "thorough" && pattern == "reqrep" && !(n == 0 || n == 101 || n == 150) {
+                if tier != "thorough" && pattern == "reqrep" && !(n == 0 || n == 101 || n == 200) {
                     continue;
                 }
                 v.push(json!({"cell": id, "queued_registrations": n, "order": order, "stalled_pattern": pattern}));
@@ -221,6 +315,9 @@ fn cells(tier: &str) -> Vec<Value> {
             }
         }
     }
+    // a client of a healthy topic that also has registrations parked behind the stalled one
+    v.push(json!({"cell": id, "family": "parked-on-victim", "parked_registrations": 3, "watch_s": if tier == "thorough" { 35 } else { 8 }}));
+    id += 1;
     for role in ["subscriber", "publisher", "replier", "requestor"] {
         for n in [1usize, 3] {
             if tier != "thorough" && n == 3 && role != "subscriber" {
@@ -228,6 +325,10 @@ fn cells(tier: &str) -> Vec<Value> {
             }
             v.push(json!({"cell": id, "family": "zero-window", "peers_without_credit": n, "role": role}));
             id += 1;
+            if n == 1 {
+                v.push(json!({"cell": id, "family": "zero-window", "peers_without_credit": n, "role": role, "topic_has_other_pattern": true}));
+                id += 1;
+            }
         }
     }
     v
@@ -240,8 +341,11 @@ pub async fn run(tier: &str, replaying: bool) -> ! {
     let outs = run_matrix(cs, 6, |c| {
         let set = set.clone();
         async move {
+            if c["family"].as_str() == Some("parked-on-victim") {
+                return (true, parked_on_victim_cell(set, c["parked_registrations"].as_u64().unwrap() as usize, c["watch_s"].as_u64().unwrap(), c["cell"].as_u64().unwrap()).await);
+            }
             if c["family"].as_str() == Some("zero-window") {
-                return (true, zero_window_cell(set, c["peers_without_credit"].as_u64().unwrap() as usize, c["role"].as_str().unwrap().to_string(), c["cell"].as_u64().unwrap()).await);
+                return (true, zero_window_cell(set, c["peers_without_credit"].as_u64().unwrap() as usize, c["role"].as_str().unwrap().to_string(), c["topic_has_other_pattern"].as_bool().unwrap_or(false), c["cell"].as_u64().unwrap()).await);
             }
             let n = c["queued_registrations"].as_u64().unwrap() as usize;
             let order = c["order"].as_str().unwrap().to_string();
@@ -255,7 +359,7 @@ pub async fn run(tier: &str, replaying: bool) -> ! {
     finish(
         rep,
         outs,
-        "every cell of: number N of further registrations on the stalled topic in {0,(1,50,)99,100,101,102,(103,)150(,250)} x order {stall first then N registrations, N registrations first then stall} x stalled pattern {pub/sub: never-reading subscriber + flooding publisher; request/reply: never-reading bound replier + flooding requestor}; per cell a fresh real server, topic A stalled by a raw subscriber that never reads plus a raw publisher flooding 64 KiB frames until a send takes longer than 1 s, N raw subscriber registrations on A (each awaits its Ok; a new QUIC connection every 50 streams), then the flooding client itself must round-trip a message on another topic over the same connection, and a fresh real client opens subscriber + publisher on topic B and must round-trip a message, each within 20 s. Plus zero-window cells: 1 or 3 peers register on topic A in each of the four roles over connections that grant the server no flow-control credit on their streams (the answer to their registration can never be written); a fresh client must still round-trip a message on topic B. non-trivial = N > 0",
+        "every cell of: number N of further registrations on the stalled topic in {0,(1,50,)99,100,101,102,(103,)150,200(,163..165,250,400)} x order {stall first then N registrations, N registrations first then stall} x stalled pattern {pub/sub: never-reading subscriber + flooding publisher; request/reply: never-reading bound replier + flooding requestor}; per cell a fresh real server, topic A stalled by a raw subscriber that never reads plus a raw publisher flooding 64 KiB frames until a send takes longer than 1 s, N raw subscriber registrations on A (each awaits its Ok; a new QUIC connection every 50 streams), then the flooding client itself must round-trip a message on another topic over the same connection, and a fresh real client opens subscriber + publisher on topic B and must round-trip a message, each within 20 s. Plus one parked-on-victim cell: with A stalled and its queue full, a client exchanging messages on topic B also sends 3 registrations for A over the same connection (they park); its exchanges on B must keep working for 8 s (thorough 35 s, i.e. beyond any internal time-out). Plus zero-window cells: 1 or 3 peers register on topic A in each of the four roles over connections that grant the server no flow-control credit on their streams (the answer to their registration - Ok, or the refusal when topic A already exists with the other messaging pattern - can never be written); a fresh client must still round-trip a message on topic B. non-trivial = N > 0",
         "fault = misbehaving participants of one topic; enumerated exhaustively over the listed N and orders",
         json!({}),
         replaying,
